@@ -13,6 +13,7 @@ CONSTANTS
   PreSize = 2
   ForeignNames <- ForeignQ
   MaxForeign = 0
+  GzipAppendOnRestart = FALSE
   OptSet <- AllOpts
 CONSTRAINT RevBound
 INVARIANTS TypeOK DurSane FinOnlyAfterDurable NothingOwedIsMissing FinqIsDurable Custody SyncOnOpenFile
